@@ -564,6 +564,7 @@ func (x *Exec) lockOp(st *State, c *ssa.CallCommon, acquire, write bool, pos tok
 				// caller-owned memory named `stable` keeps its content (assumption, listed in the evidence)
 				for _, se := range x.fc.Stable {
 					sctx := x.specCtx(preLock, nil)
+					sctx.locals, sctx.inBody = true, true // thread-local objects held in locals may be named
 					err := x.frameAllow(sctx, se, func(key string, whole bool, ref *Term) {
 						s, ok := x.heapSort[key]
 						if !ok {
@@ -579,7 +580,7 @@ func (x *Exec) lockOp(st *State, c *ssa.CallCommon, acquire, write bool, pos tok
 					if err != nil {
 						x.errorf("stable %s: %v", se.String(), err)
 					}
-					x.assumptions["caller-owned memory is not mutated by other goroutines during the call: "+se.String()+" in "+x.key] = true
+					x.assumptions["memory owned by this call (caller-owned arguments, objects it allocated and has not published) is not mutated by other goroutines: "+se.String()+" in "+x.key] = true
 				}
 			}
 			snapSt := st.clone()
